@@ -294,7 +294,7 @@ func sameTree(a, b *ref.N) bool {
 // ---- alphabets -------------------------------------------------------------
 
 // SigmaFull: one lexeme per scanned token kind plus key variants.
-var SigmaFull = strings.Fields(`a $x 1 2.5 .5 0x1 's' "t" true false null this ctx typeof ( ) [ ] . ... , < > <= >= == === != !== + - * / % & | ^ && || ?? ! !. !! ~ ? : = #`)
+var SigmaFull = append(strings.Fields(`a $x 1 2.5 .5 0x1 's' "t" true false null this ctx typeof ( ) [ ] . ... , < > <= >= == === != !== + - * / % & | ^ && || ?? ! !. !! ~ ? : = #`), "\x00")
 
 // SigmaClass: one representative per grammar class.
 var SigmaClass = strings.Fields(`a 1 's' null typeof ( ) [ ] . !. ... , = ? : + * / < == & | ^ && || ?? ! !! ~ #`)
